@@ -97,6 +97,9 @@ FIRST_MISSED = {
     "C07-10": "own property silent (reported by C02 AUTHERR) -> ERRUSE extended to slice results (indexing, slicing beyond 0, encoding/binary decoders) and to errors that are handed to the caller untested",
     "C16-9": "own property silent (reported by C05/C08 TAINT-WIRE) -> FLUSH: Flush only ever advances a pending slice by the count its Write returned",
     "C14-9": "no check reported it -> CHUNK-2: maxChunkSize is stored exactly as configured (the option's argument, not reassigned)",
+    "C12-10": "no check reported it -> EXIT: every blocking wait of the two handshakes (and their reader goroutines) has a ctx.Done() or timer case",
+    "C20-10": "no check reported it -> TMO-3: a sample is consumed only by the message type that answers the sampled one (SYN time: SYN/SYNACK; DATA send time: ACK)",
+    "C17-9": "no check reported it -> CODEC-SIB: the pairing phrase is cut at every separator (strings.Split/Fields over the whole phrase) and copied into the word array",
     "C06-3": "no check reported it -> RATELIMIT: once lastResend is refreshed the packets are transmitted",
 }
 
